@@ -163,6 +163,44 @@ def _output_in_several_merges(stmts) -> bool:
     return any(v >= 2 for v in cnt.values())
 
 
+def known_crosstalk(w, obs, stmts, cont_ents, anchors: bool = False) -> bool:
+    """The known shared-network structure (named or bundle form) inside ONE program's build."""
+    from .c02 import static_types
+
+    # contents that may appear: every item / fluid the schedule uses
+    for e in cont_ents:
+        w.set_emit(e.num, {gamedata.sk(t): 1 for t in ITEMS + ["water"]})
+    try:
+        labels = {n: k for k, v in obs.inputs.items() for n in v}
+        sites = crosstalk_sites(w, [], labels)
+        btypes, _r = static_types(stmts)
+        cont_types = set(gamedata.sk(t) for t in ITEMS + ["water"])
+        allowed = [cont_types]
+        for bn, ts in btypes.items():
+            allowed.append(set(gamedata.sk(t) for t in ts) if ts else cont_types)
+        has_container = any("eout" in str(s) for s in stmts)
+        if not has_container:
+            allowed = [a for a in allowed if a is not cont_types] or [set()]
+        else:
+            # merges of container outputs with literal members may carry both kinds
+            allowed.append(cont_types | set().union(*[a for a in allowed]))
+        per_entity = None
+        if anchors:
+            # twin checks also compare bundle anchors: an anchor of a bundle name must only see
+            # that bundle's own member types
+            per_entity = {}
+            everything = set().union(*allowed) if allowed else set()
+            for nm, lst in obs.anchors.items():
+                if nm in btypes:
+                    ts = set(gamedata.sk(t) for t in btypes[nm]) if btypes[nm] else (cont_types if has_container else everything)
+                    for num, _t in lst:
+                        per_entity[num] = ts
+        return bool(sites or bundle_crosstalk_sites(w, allowed, per_entity, anchors=anchors))
+    finally:
+        for e in cont_ents:
+            w.set_emit(e.num, {})
+
+
 def run_case(case: dict) -> dict:
     res = base_result(case)
     stmts = case["stmts"]
@@ -181,10 +219,6 @@ def run_case(case: dict) -> dict:
         obs = Obs(w)
         excl = set(case.get("exclude") or [])
         probe(res, "family_" + case.get("family", "?"))
-        if "const-enable" in excl and _const_enable(stmts, case["inputs"]):
-            res["status"] = "excluded"
-            res["excluded_by"] = "const-enable"
-            return res
         if "output-in-several-merges" in excl and _output_in_several_merges(stmts):
             res["status"] = "excluded"
             res["excluded_by"] = "output-in-several-merges"
@@ -218,32 +252,10 @@ def run_case(case: dict) -> dict:
                 res["status"] = "excluded"
                 res["excluded_by"] = "same-source-two-roles"
                 return res
-        if "crosstalk" in excl:
-            # contents that may appear: every item / fluid the schedule uses
-            for c in case["containers"]:
-                w.set_emit(cont_ent[c["name"]].num, {gamedata.sk(t): 1 for t in ITEMS + ["water"]})
-            labels = {n: k for k, v in obs.inputs.items() for n in v}
-            sites = crosstalk_sites(w, [], labels)
-            from .c02 import static_types
-
-            btypes, _r = static_types(stmts)
-            cont_types = set(gamedata.sk(t) for t in ITEMS + ["water"])
-            allowed = [cont_types]
-            for bn, ts in btypes.items():
-                allowed.append(set(gamedata.sk(t) for t in ts) if ts else cont_types)
-            has_container = any("eout" in str(s) for s in stmts)
-            if not has_container:
-                allowed = [a for a in allowed if a is not cont_types] or [set()]
-            else:
-                # merges of container outputs with literal members may carry both kinds
-                allowed.append(cont_types | set().union(*[a for a in allowed]))
-            sites = sites or bundle_crosstalk_sites(w, allowed)
-            for c in case["containers"]:
-                w.set_emit(cont_ent[c["name"]].num, {})
-            if sites:
-                res["status"] = "excluded"
-                res["excluded_by"] = "crosstalk"
-                return res
+        if "crosstalk" in excl and known_crosstalk(w, obs, stmts, [cont_ent[c["name"]] for c in case["containers"]]):
+            res["status"] = "excluded"
+            res["excluded_by"] = "crosstalk"
+            return res
         bound = settle_bound(w)
         steps = [{}] + list(case["history"])
         for si, step in enumerate(steps):
